@@ -158,6 +158,9 @@ type store struct {
 	mainStore  spi.Store
 	cacheStore spi.Store
 	close      closer
+	// writeLock serialises everything that writes BOTH stores (Put, Delete, Batch and the cache fill of a read miss):
+	// interleaved, two writers - or a writer and a cache fill - leave the cache with another value than the main store.
+	writeLock sync.Mutex
 }
 
 func (s *store) Put(key string, value []byte, tags ...spi.Tag) error {
@@ -170,6 +173,9 @@ func (s *store) Put(key string, value []byte, tags ...spi.Tag) error {
 			return fmt.Errorf(invalidTagValue, tag.Value)
 		}
 	}
+
+	s.writeLock.Lock()
+	defer s.writeLock.Unlock()
 
 	err := s.mainStore.Put(key, value, tags...)
 	if err != nil {
@@ -191,6 +197,9 @@ func (s *store) Get(key string) ([]byte, error) {
 	} else if !errors.Is(err, spi.ErrDataNotFound) { // If err is spi.ErrDataNotFound, then it's a cache miss.
 		return nil, fmt.Errorf("unexpected failure while getting data from cache store: %w", err)
 	}
+
+	s.writeLock.Lock()
+	defer s.writeLock.Unlock()
 
 	value, err = s.mainStore.Get(key)
 	if err != nil {
@@ -252,6 +261,9 @@ func (s *store) Query(expression string, options ...spi.QueryOption) (spi.Iterat
 }
 
 func (s *store) Delete(key string) error {
+	s.writeLock.Lock()
+	defer s.writeLock.Unlock()
+
 	err := s.mainStore.Delete(key)
 	if err != nil {
 		return fmt.Errorf("failed to delete data in the main store: %w", err)
@@ -266,6 +278,9 @@ func (s *store) Delete(key string) error {
 }
 
 func (s *store) Batch(operations []spi.Operation) error {
+	s.writeLock.Lock()
+	defer s.writeLock.Unlock()
+
 	err := s.mainStore.Batch(operations)
 	if err != nil {
 		return fmt.Errorf("failed to perform operations in the main store: %w", err)
